@@ -81,6 +81,7 @@ PLANS = {
                      st("miri", "parjoin", 16, 3, 16, 3000, small=1, max_pool=3, miri_ignore_leaks=True)],
     },
     "C08": with_storage("C08", world(), miri_q=True),
+    "C12": only_storage("C12"),
     "C09": world(),
     "C10": {
         "quick": [st("dbg", "conc", 24000, 6, 8, mode="controlled"), st("rel", "conc", 1600, 300, 8, mode="stress")],
@@ -94,7 +95,6 @@ PLANS = {
         "thorough": [st("dbg", "dispatch", 40000, 24, 16, 3000), st("rel", "dispatch", 40000, 24, 16, 3000),
                      st("tsan", "dispatch", 1600, 24, 8, 3000)],
     },
-    "C12": only_storage("C12"),
     "C13": only_storage("C13"),
     "C14": {
         "quick": [st("dbg", "saveload", 12000, 60, 8), st("rel", "saveload", 12000, 60, 8)],
@@ -183,3 +183,10 @@ ASSUMPTIONS = {
 }
 for _p in list(RULES):
     ASSUMPTIONS[_p] = list(ASSUMPTIONS["_common"])
+
+
+# a destructor panic must not make a value be destroyed twice (C08) nor lose a Removed event (C12):
+# the fault-enumeration engine also runs under these properties' checks
+for _p in ("C08", "C12"):
+    PLANS[_p]["quick"].append(st("dbg", "panicdrop", 2992, 12, 8))
+    PLANS[_p]["thorough"].append(st("rel", "panicdrop", 1496 * 20, 12, 16, 3000))
